@@ -844,7 +844,9 @@ func (mvcc *MVCCLevelDB) Prewrite(req *kvrpcpb.PrewriteRequest) []error {
 		// no need to check insert values for pessimistic transaction.
 		op := m.GetOp()
 		if (op == kvrpcpb.Op_Insert || op == kvrpcpb.Op_CheckNotExists) && forUpdateTS == 0 {
-			v, err := mvcc.getValue(m.Key, startTS, kvrpcpb.IsolationLevel_SI, req.Context.ResolvedLocks)
+			// The transaction's own lock (a repeated prewrite) must not block its own existence check.
+			resolved := append(append([]uint64{}, req.Context.ResolvedLocks...), startTS)
+			v, err := mvcc.getValue(m.Key, startTS, kvrpcpb.IsolationLevel_SI, resolved)
 			if err != nil {
 				errs = append(errs, err)
 				anyError = true
